@@ -148,6 +148,22 @@ func main() {
 		for _, k := range ks {
 			fmt.Println(k)
 		}
+	case "params":
+		// parameter names (receiver first) of every function under contract
+		var ks []string
+		for k, sp := range P.specs.Funcs {
+			if !strings.HasPrefix(k, "@") && !sp.Lemma && P.fnByKey[k] != nil {
+				ks = append(ks, k)
+			}
+		}
+		sort.Strings(ks)
+		for _, k := range ks {
+			var ns []string
+			for _, p := range P.fnByKey[k].Params {
+				ns = append(ns, p.Name())
+			}
+			fmt.Printf("%s\t%s\t%s\n", k, P.specs.Funcs[k].File, strings.Join(ns, ","))
+		}
 	case "func":
 		work, _ := os.MkdirTemp("", "govc")
 		if !*keep {
